@@ -239,6 +239,10 @@ fn main() {
                 "C08" => exec::debug(exec::Prop::C08, &doc, args.get(4).map(|s| s.as_str())),
                 _ => cluster::runs::debug_sql(rs, &doc["overrides"], &sql, nodes, init),
             }
+            if std::env::var("VERIF_KEEP_SCRATCH").is_ok() {
+                eprintln!("scratch kept at {}", report::scratch_root().display());
+                return;
+            }
             let _ = std::fs::remove_dir_all(report::scratch_root());
         }
         _ => {
